@@ -80,6 +80,8 @@ impl SpillPoolShared {
 
     /// Registers a waker to be notified when new data is available (pool-level)
     fn register_waker(&mut self, waker: Waker) {
+        #[cfg(datafusion_verif)]
+        datafusion_common::verif::point("sp_reg_pool", &[]);
         self.waker = Some(waker);
     }
 
@@ -141,6 +143,8 @@ impl Clone for SpillPoolWriter {
 
 impl Drop for SpillPoolSink {
     fn drop(&mut self) {
+        #[cfg(datafusion_verif)]
+        datafusion_common::verif::point("sp_d_q1", &[]);
         let mut shared = self.shared.lock();
 
         shared.remaining_writer_count -= 1;
@@ -158,6 +162,8 @@ impl Drop for SpillPoolSink {
             drop(shared);
 
             for file in files {
+                #[cfg(datafusion_verif)]
+                datafusion_common::verif::point("sp_d_q2", &[]);
                 let mut file_shared = file.lock();
 
                 // Finish the current writer if it exists
@@ -174,6 +180,8 @@ impl Drop for SpillPoolSink {
                 drop(file_shared);
             }
 
+            #[cfg(datafusion_verif)]
+            datafusion_common::verif::point("sp_d_q3", &[]);
             shared = self.shared.lock();
         }
 
@@ -210,6 +218,8 @@ impl SpillPoolSink {
         let batch_size = batch.get_array_memory_size();
 
         // Fine-grained locking: Lock shared state briefly for queue access
+        #[cfg(datafusion_verif)]
+        datafusion_common::verif::point("sp_w_p1", &[]);
         let mut shared = self.shared.lock();
 
         // Create new file if there is none available to append to
@@ -220,6 +230,8 @@ impl SpillPoolSink {
             // Release shared lock before disk I/O (fine-grained locking)
             drop(shared);
 
+            #[cfg(datafusion_verif)]
+            datafusion_common::verif::point("sp_w_p2a", &[]);
             let writer = spill_manager.create_in_progress_file("SpillPool")?;
             // Clone the file so readers can access it immediately
             let file = Arc::clone(writer.file().expect(
@@ -236,6 +248,8 @@ impl SpillPoolSink {
             }));
 
             // Re-acquire lock and push to shared queue
+            #[cfg(datafusion_verif)]
+            datafusion_common::verif::point("sp_w_p2b", &[]);
             shared = self.shared.lock();
             shared.files.push_back(Arc::clone(&file_shared));
             shared.wake(); // Wake readers waiting for new files
@@ -247,6 +261,8 @@ impl SpillPoolSink {
         drop(shared);
 
         // Write batch to current file - lock only the specific file
+        #[cfg(datafusion_verif)]
+        datafusion_common::verif::point("sp_w_p3", &[]);
         let mut file_shared = write_file.lock();
 
         // Append the batch
@@ -279,6 +295,8 @@ impl SpillPoolSink {
             // Release file lock
             drop(file_shared);
             // Put back the current file for further writing
+            #[cfg(datafusion_verif)]
+            datafusion_common::verif::point("sp_w_p4", &[]);
             let mut shared = self.shared.lock();
             shared.open_write_files.push_back(write_file);
         }
@@ -541,6 +559,8 @@ struct ActiveSpillFileShared {
 impl ActiveSpillFileShared {
     /// Registers a waker to be notified when new data is written to this file
     fn register_waker(&mut self, waker: Waker) {
+        #[cfg(datafusion_verif)]
+        datafusion_common::verif::point("sp_reg_file", &[]);
         self.waker = Some(waker);
     }
 
@@ -581,6 +601,8 @@ impl Stream for SpillPoolFile {
 
         // Step 1: Lock shared state and check coordination
         let (should_read, file) = {
+            #[cfg(datafusion_verif)]
+            datafusion_common::verif::point("sp_r_f1", &[]);
             let mut shared = self.shared.lock();
 
             // Determine if we can read
@@ -623,6 +645,8 @@ impl Stream for SpillPoolFile {
             } else {
                 // File not available yet (writer hasn't finished or already taken)
                 // Register waker and wait for file to be ready
+                #[cfg(datafusion_verif)]
+                datafusion_common::verif::point("sp_r_f1b", &[]);
                 let mut shared = self.shared.lock();
                 shared.register_waker(cx.waker().clone());
                 return Poll::Pending;
@@ -630,6 +654,8 @@ impl Stream for SpillPoolFile {
         }
 
         // Step 3: Poll the reader stream (no lock held)
+        #[cfg(datafusion_verif)]
+        datafusion_common::verif::point("sp_r_read", &[]);
         if let Some(reader) = &mut self.reader {
             match reader.stream.poll_next_unpin(cx) {
                 Poll::Ready(Some(Ok(batch))) => {
@@ -719,10 +745,14 @@ impl Stream for SpillPoolReader {
                     Poll::Ready(None) => {
                         // Current file stream exhausted
                         // Check if this file is marked as writer_finished
+                        #[cfg(datafusion_verif)]
+                        datafusion_common::verif::point("sp_r_fin", &[]);
                         let writer_finished = { file.shared.lock().writer_finished };
 
                         if writer_finished {
                             // File is complete, pop it from the queue and move to next
+                            #[cfg(datafusion_verif)]
+                            datafusion_common::verif::point("sp_r_fd", &[]);
                             let mut shared = self.shared.lock();
                             shared.files.pop_front();
                             drop(shared); // Release lock
@@ -739,6 +769,8 @@ impl Stream for SpillPoolReader {
                     Poll::Pending => {
                         // File not ready yet (waiting for writer)
                         // Register waker so we get notified when writer adds more batches
+                        #[cfg(datafusion_verif)]
+                        datafusion_common::verif::point("sp_r_fpend", &[]);
                         let mut shared = self.shared.lock();
                         shared.register_waker(cx.waker().clone());
                         return Poll::Pending;
@@ -747,6 +779,8 @@ impl Stream for SpillPoolReader {
             }
 
             // No current file, need to get the next one
+            #[cfg(datafusion_verif)]
+            datafusion_common::verif::point("sp_r_b", &[]);
             let mut shared = self.shared.lock();
 
             // Peek at the front of the queue (don't pop yet)
